@@ -1,8 +1,281 @@
-(* C20_Props.v — property C20, stated over the timed systems of C20_Model.v. *)
-From Gogu Require Import Base C20_Model C20_Proofs.
+(* C20_Props.v — property C20, stated over the timed systems of C20_Model.v.
+
+   "A delayed or debounced function never runs sooner than the configured wait
+    after the call that scheduled it (for debounce: after the most recent
+    call), runs at most once per burst of calls and not at all after cancel; if
+    no further call or cancel arrives it does run.  A throttle hands out at
+    most one permission (Next returning true) per period regardless of how many
+    triggers arrive and in what order they interleave with Next, keeps a
+    trailing trigger only when configured to, and after Cancel every pending
+    and future Next returns false promptly."
+
+   Every theorem quantifies over ALL well-formed event sequences
+   ([l_run]/[d_run]/[t_run] … = Some _): every interleaving of the API calls
+   with the runtime's firings and wake-ups at arbitrary instants that respects
+   the timer law (clock monotone; no firing before the deadline; no firing of
+   a stopped or already fired timer).  Nothing bounds how LATE the runtime acts:
+   "does run" is stated for complete histories (the runtime owes no firing),
+   "promptly" as "the return is enabled at once" — latency is runtime
+   behaviour (C20 is claimed PARTIAL for that reason). *)
+From Gogu Require Import Base C20_Model C20_Proofs C20_Proofs2.
 Local Open Scope Z_scope.
 
+(* ====================================================================== *)
+(* Delay                                                                   *)
+(* ====================================================================== *)
+
+(* never sooner than the wait after the call *)
 Theorem C20_delay_never_early : forall t w h s r,
   l_run l_init (LDelay t w :: h) = Some s -> In r (l_runs s) -> r >= t + w.
 Proof. exact delay_never_early_l. Qed.
 Print Assumptions C20_delay_never_early.
+
+(* at most once *)
+Theorem C20_delay_at_most_once : forall t w h s,
+  l_run l_init (LDelay t w :: h) = Some s -> (length (l_runs s) <= 1)%nat.
+Proof. exact delay_at_most_once_l. Qed.
+Print Assumptions C20_delay_at_most_once.
+
+(* not at all after Stop: no firing follows a Stop, the runs are those before it *)
+Theorem C20_delay_none_after_stop : forall t w h1 ts h2 s,
+  l_run l_init (LDelay t w :: h1 ++ LStop ts :: h2) = Some s ->
+  forallb (fun e => negb (l_is_fire e)) h2 = true /\
+  (forall s1, l_run l_init (LDelay t w :: h1) = Some s1 -> l_runs s = l_runs s1).
+Proof. exact delay_none_after_stop_l. Qed.
+Print Assumptions C20_delay_none_after_stop.
+
+(* never stopped, complete history (no pending timer): it ran, exactly once *)
+Theorem C20_delay_eventually : forall t w h s,
+  l_run l_init (LDelay t w :: h) = Some s ->
+  forallb (fun e => negb (l_is_stop e)) h = true ->
+  (forall tm, l_timer s = Some tm -> tm_pending tm = false) ->
+  exists r, l_runs s = [r] /\ r >= t + w.
+Proof. exact delay_eventually_l. Qed.
+Print Assumptions C20_delay_eventually.
+
+(* non-vacuity: a run at the deadline; a Stop before it (then a firing is not a
+   well-formed continuation); a complete unstopped history *)
+Example C20_delay_ex_runs :
+  option_map l_runs (l_run l_init [LDelay 10 5; LFire 15]) = Some [15] /\
+  l_run l_init [LDelay 10 5; LFire 14] = None /\
+  l_run l_init [LDelay 10 5; LFire 15; LFire 16] = None.
+Proof. vm_compute. auto. Qed.
+Example C20_delay_ex_stop :
+  option_map l_runs (l_run l_init [LDelay 10 5; LStop 12; LStop 30]) = Some [] /\
+  l_run l_init [LDelay 10 5; LStop 12; LFire 15] = None /\
+  option_map l_runs (l_run l_init [LDelay 10 5; LFire 20; LStop 21]) = Some [20].
+Proof. vm_compute. auto. Qed.
+Example C20_delay_ex_complete :
+  exists s, l_run l_init [LDelay 10 5; LFire 17] = Some s /\
+            (forall tm, l_timer s = Some tm -> tm_pending tm = false) /\ l_runs s = [17].
+Proof. eexists. split; [vm_compute; reflexivity|]. cbn. split; [|reflexivity]. intros tm [= <-]. reflexivity. Qed.
+
+(* ====================================================================== *)
+(* Debounce                                                                *)
+(* ====================================================================== *)
+
+(* [DFire id t]: the runtime starts the function passed to call number [id]
+   (calls are numbered 0, 1, … in history order) at instant [t]. *)
+
+(* never early: a firing is the MOST RECENT call's (the event right before
+   it), no sooner than wait after it — hence no sooner than wait after any
+   call that precedes it *)
+Theorem C20_debounce_never_early : forall wait h1 id t h2 s,
+  d_run (d_init wait) (h1 ++ DFire id t :: h2) = Some s ->
+  (exists h0 tc f, h1 = h0 ++ [DCall tc f] /\ id = ncalls h0 /\ t >= tc + wait) /\
+  (forall tc f, In (DCall tc f) h1 -> t >= tc + wait).
+Proof. exact debounce_never_early_l. Qed.
+Print Assumptions C20_debounce_never_early.
+
+(* the runs recorded in the state are exactly the firings of the history,
+   each with the function of the call right before it *)
+Theorem C20_debounce_runs_are_the_firings : forall wait h s,
+  d_run (d_init wait) h = Some s -> d_runs s = rev (d_fire_log None h).
+Proof. exact d_runs_log. Qed.
+Print Assumptions C20_debounce_runs_are_the_firings.
+
+(* at most one run per burst (burst = maximal block of consecutive calls,
+   each arriving while the previous one's timer has not fired) … *)
+Theorem C20_debounce_at_most_once_per_burst : forall wait h s,
+  d_run (d_init wait) h = Some s -> (length (d_runs s) <= bursts h)%nat.
+Proof. exact debounce_at_most_once_per_burst_l. Qed.
+Print Assumptions C20_debounce_at_most_once_per_burst.
+
+(* … because two firings are never adjacent: a later call separates them … *)
+Theorem C20_debounce_call_between_fires : forall wait h1 id t hm id' t' h2 s,
+  d_run (d_init wait) (h1 ++ DFire id t :: hm ++ DFire id' t' :: h2) = Some s ->
+  exists hm' tc f, hm = hm' ++ [DCall tc f] /\ (id < id')%nat.
+Proof. exact debounce_call_between_fires_l. Qed.
+Print Assumptions C20_debounce_call_between_fires.
+
+(* … and a call followed by another Call or a Cancel before its deadline
+   (i.e. any call of a burst but the last) never runs *)
+Theorem C20_debounce_superseded_never_runs : forall wait h0 tc f h1 e h2 s,
+  d_run (d_init wait) (h0 ++ DCall tc f :: h1 ++ e :: h2) = Some s ->
+  d_is_fire e = false -> devent_time e < tc + wait ->
+  forall t, ~ In (DFire (ncalls h0) t) (h1 ++ e :: h2).
+Proof. exact debounce_superseded_never_runs_l. Qed.
+Print Assumptions C20_debounce_superseded_never_runs.
+
+(* none after cancel: whatever fires after a Cancel belongs to a call made
+   after it; with no such call nothing fires and the runs are those before *)
+Theorem C20_debounce_none_after_cancel : forall wait h1 tc h2 s,
+  d_run (d_init wait) (h1 ++ DCancel tc :: h2) = Some s ->
+  (forall id t, In (DFire id t) h2 -> (ncalls h1 <= id)%nat) /\
+  (forallb (fun e => negb (d_is_call e)) h2 = true ->
+   forallb (fun e => negb (d_is_fire e)) h2 = true /\
+   forall s1, d_run (d_init wait) h1 = Some s1 -> d_runs s = d_runs s1).
+Proof. exact debounce_none_after_cancel_l. Qed.
+Print Assumptions C20_debounce_none_after_cancel.
+
+(* if no further call or cancel arrives it does run: in a complete history
+   (no pending timer) whose last Call is followed by no Call or Cancel, what
+   follows is exactly one firing of THAT call, no sooner than wait after it,
+   running the function passed to it *)
+Theorem C20_debounce_eventually : forall wait h0 tc f h1 s,
+  d_run (d_init wait) (h0 ++ DCall tc f :: h1) = Some s ->
+  forallb d_is_fire h1 = true ->
+  d_complete s = true ->
+  exists t, h1 = [DFire (ncalls h0) t] /\ t >= tc + wait /\
+            exists s0, d_run (d_init wait) h0 = Some s0 /\ d_runs s = (t, f) :: d_runs s0.
+Proof. exact debounce_eventually_last_l. Qed.
+Print Assumptions C20_debounce_eventually.
+
+(* non-vacuity: wait 10; a burst of three calls (functions 7, 8, 9), the last
+   one runs at 25; a second burst of two, cancelled; a third of one, run at 80 *)
+Definition C20_deb_ex : list devent :=
+  [DCall 0 7; DCall 4 8; DCall 12 9; DFire 2 25;
+   DCall 30 1; DCall 31 2; DCancel 35;
+   DCall 60 3; DFire 5 80].
+Example C20_debounce_ex_runs :
+  option_map d_runs (d_run (d_init 10) C20_deb_ex) = Some [(80, 3); (25, 9)] /\
+  option_map d_complete (d_run (d_init 10) C20_deb_ex) = Some true /\
+  bursts C20_deb_ex = 3%nat.
+Proof. vm_compute. auto. Qed.
+(* early, superseded, cancelled and repeated firings are not well-formed *)
+Example C20_debounce_ex_refused :
+  d_run (d_init 10) [DCall 0 7; DFire 0 9] = None /\
+  d_run (d_init 10) [DCall 0 7; DCall 4 8; DFire 0 20] = None /\
+  d_run (d_init 10) [DCall 0 7; DCancel 4; DFire 0 20] = None /\
+  d_run (d_init 10) [DCall 0 7; DFire 0 10; DFire 0 11] = None.
+Proof. vm_compute. auto. Qed.
+
+(* ====================================================================== *)
+(* Throttle                                                                *)
+(* ====================================================================== *)
+
+(* [grants h]: the instants at which a Next returned true, in history order. *)
+
+(* at most one permission per period, whatever the triggers and however they
+   interleave with Next: ANY two permissions are at least d apart — more than
+   d apart when trailing = false (with trailing = true the extra permission
+   is handed out exactly from the trailing edge last + d on) *)
+Theorem C20_throttle_one_permission_per_period : forall d trailing h s i j a b,
+  t_run (t_init d trailing) h = Some s -> (i < j)%nat ->
+  nth_error (grants h) i = Some a -> nth_error (grants h) j = Some b ->
+  b - a >= d /\ (trailing = false -> b - a > d).
+Proof. exact throttle_one_per_period_l. Qed.
+Print Assumptions C20_throttle_one_permission_per_period.
+
+(* regardless of how many triggers arrive: never more permissions than triggers *)
+Theorem C20_throttle_permissions_le_triggers : forall d trailing h s,
+  t_run (t_init d trailing) h = Some s -> (length (grants h) <= tcalls h)%nat.
+Proof. exact throttle_grants_le_calls_l. Qed.
+Print Assumptions C20_throttle_permissions_le_triggers.
+
+(* trailing = false: after a permission at instant l, triggers that arrive
+   inside its period (t - l <= d), however many, are dropped — no permission
+   follows until a trigger arrives outside the period *)
+Theorem C20_throttle_drops_triggers_inside_period : forall d h0 id l h' s,
+  t_run (t_init d false) (h0 ++ TNextReturn id l true :: h') = Some s ->
+  (forall t, In (TCall t) h' -> t - l <= d) ->
+  grants h' = [].
+Proof. exact throttle_drops_inside_period_l. Qed.
+Print Assumptions C20_throttle_drops_triggers_inside_period.
+
+(* trailing = true, not cancelled: after ANY trigger a permission is owed
+   (waiting raised, or the trailing-edge timer armed), and it can be handed
+   out at every instant t1 from the trigger / the trailing edge on: either a
+   Next returns true at once, or the timer fires and then a Next returns true *)
+Theorem C20_throttle_keeps_trailing_trigger : forall d h t s,
+  t_run (t_init d true) (h ++ [TCall t]) = Some s ->
+  existsb t_is_cancel h = false ->
+  k_owed (t_core s) = true /\
+  forall id t1, mem_nat id (t_active s) = false -> t1 >= t ->
+    (forall l, last_grant h = Some l -> t1 >= l + d) ->
+    exists h2 s', (h2 = [] \/ h2 = [TFire t1]) /\
+      t_run s (h2 ++ [TNextStart id t1; TNextReturn id t1 true]) = Some s'.
+Proof. exact throttle_keeps_trailing_l. Qed.
+Print Assumptions C20_throttle_keeps_trailing_trigger.
+
+(* after Cancel: every Next that returns returns false; a pending Next (started,
+   not returned) may return at once, and so may a Next started later *)
+Theorem C20_throttle_cancel_releases : forall d trailing h tc h' s,
+  t_run (t_init d trailing) (h ++ TCancel tc :: h') = Some s ->
+  (forall id t b, In (TNextReturn id t b) h' -> b = false) /\
+  (forall id t, t >= t_now s -> mem_nat id (t_active s) = true ->
+     exists s', t_step s (TNextReturn id t false) = Some s') /\
+  (forall id t, t >= t_now s -> mem_nat id (t_active s) = false ->
+     exists s', t_run s [TNextStart id t; TNextReturn id t false] = Some s').
+Proof. exact throttle_cancel_l. Qed.
+Print Assumptions C20_throttle_cancel_releases.
+
+(* leading edge: the first trigger of a fresh throttler is granted at once *)
+Theorem C20_throttle_leading_permission : forall d trailing t id t1,
+  0 <= t -> t <= t1 ->
+  exists s, t_run (t_init d trailing) [TCall t; TNextStart id t1; TNextReturn id t1 true] = Some s.
+Proof. exact throttle_leading_l. Qed.
+Print Assumptions C20_throttle_leading_permission.
+
+(* regression witness of the repaired defect (DESIGN §7 #31): in the code
+   BEFORE the repair ([t_run_orig]: trailing Call raised waiting at once)
+   this history — period 20 ms, two permissions 1 ms apart — was possible;
+   the repaired system refuses it *)
+Theorem C20_throttle_original_code_two_permissions_in_period :
+  exists s, t_run_orig (t_init 20000000 true) orig_witness = Some s /\
+            grants orig_witness = [0; 1000000] /\
+            t_run (t_init 20000000 true) orig_witness = None.
+Proof. exact throttle_orig_two_grants_l. Qed.
+Print Assumptions C20_throttle_original_code_two_permissions_in_period.
+
+(* non-vacuity.  Period 20.  trailing = false: leading permission at 1, two
+   triggers inside the period are dropped (a Next started at 6 stays blocked),
+   a trigger at 30 releases it: permissions [1; 30], 29 > 20 apart *)
+Definition C20_thr_ex_nt : list tevent :=
+  [TCall 0; TNextStart 0 1; TNextReturn 0 1 true;
+   TCall 5; TNextStart 1 6; TCall 21;
+   TCall 30; TNextReturn 1 30 true].
+Example C20_throttle_ex_no_trailing :
+  is_some (t_run (t_init 20 false) C20_thr_ex_nt) = true /\
+  grants C20_thr_ex_nt = [1; 30] /\ tcalls C20_thr_ex_nt = 4%nat /\
+  (* the dropped trigger does not enable the blocked Next *)
+  t_run (t_init 20 false) [TCall 0; TNextStart 0 1; TNextReturn 0 1 true;
+                           TCall 5; TNextStart 1 6; TNextReturn 1 40 true] = None.
+Proof. vm_compute. auto. Qed.
+
+(* trailing = true: the trigger at 5 is kept — the timer fires at the trailing
+   edge 21 (not before) and the blocked Next is then granted: [1; 21], exactly
+   d apart; a second trigger inside the period adds nothing *)
+Definition C20_thr_ex_tr : list tevent :=
+  [TCall 0; TNextStart 0 1; TNextReturn 0 1 true;
+   TCall 5; TCall 7; TNextStart 1 8; TFire 21; TNextReturn 1 21 true].
+Example C20_throttle_ex_trailing :
+  is_some (t_run (t_init 20 true) C20_thr_ex_tr) = true /\
+  grants C20_thr_ex_tr = [1; 21] /\
+  (* not before the trailing edge, neither the timer nor the permission *)
+  t_run (t_init 20 true) [TCall 0; TNextStart 0 1; TNextReturn 0 1 true; TCall 5; TFire 20] = None /\
+  t_run (t_init 20 true) [TCall 0; TNextStart 0 1; TNextReturn 0 1 true;
+                          TCall 5; TNextStart 1 8; TNextReturn 1 8 true] = None /\
+  (* and only one extra permission *)
+  t_run (t_init 20 true) (C20_thr_ex_tr ++ [TNextStart 2 22; TNextReturn 2 22 true]) = None.
+Proof. vm_compute. auto. Qed.
+
+(* Cancel with one Next pending and one started afterwards: both return false;
+   `true` is not a possible result any more, even with a trigger waiting *)
+Definition C20_thr_ex_cancel : list tevent :=
+  [TCall 0; TNextStart 0 1; TNextReturn 0 1 true; TNextStart 1 2;
+   TCancel 3; TNextReturn 1 3 false; TCall 40; TNextStart 2 41; TNextReturn 2 41 false].
+Example C20_throttle_ex_cancel :
+  is_some (t_run (t_init 20 true) C20_thr_ex_cancel) = true /\
+  t_run (t_init 20 true) [TCall 0; TCancel 3; TNextStart 2 41; TNextReturn 2 41 true] = None.
+Proof. vm_compute. auto. Qed.
